@@ -52,7 +52,7 @@ LimAmt(lv)  == LET nz == NonZero(lv) IN {One} \cup (IF nz # <<>> THEN {nz[1].s, 
 LimPx(lv)   == {P4(700)} \cup (IF Len(lv) >= 1 THEN {lv[1].p} ELSE {})
                          \cup (IF Len(lv) >= 2 THEN {QMul(lv[2].p, QOf(10005, 10000))} ELSE {})
                          \cup (IF Level > 1 /\ Len(lv) >= 3 THEN {QMul(lv[3].p, QOf(9995, 10000))} ELSE {})
-CapK        == {QOf(1015, 1000), QOf(105, 100)}
+CapK        == {QOf(1015, 1000), QOf(102, 100), QOf(105, 100)}     \* 1.02: on book 4 the cap keeps two levels and excludes the third
 CapAmt(lv)  == {One, SumSizes(lv)} \cup (IF Level > 1 THEN {QOf(2, 1)} ELSE {})
 
 Tr(op, i, amt, mode, px) == [op |-> op, i |-> i, amt |-> amt, mode |-> mode, px |-> px]
